@@ -146,10 +146,28 @@ fn cmd_core(args: &Args) {
     });
 }
 
+fn cmd_unused(args: &Args) {
+    let cases = read_ndjson(args.req("cases"));
+    let events: Vec<J> = match args.get("events") {
+        Some(p) => read_ndjson(p),
+        None => core::default_events(),
+    };
+    let tz = vrl::compiler::TimeZone::Named(chrono_tz::UTC);
+    std::panic::set_hook(Box::new(|_| {}));
+    sharded(cases, args.num("shards", 1), args.req("out"), |_, part, w| {
+        for case in part {
+            for ev in core::unused_case(case, &events, &tz) {
+                writeln!(w, "{ev}").unwrap();
+            }
+        }
+    });
+}
+
 fn main() {
     let args = parse_args();
     match args.cmd.as_str() {
         "core" => cmd_core(&args),
+        "unused" => cmd_unused(&args),
         "nfn" => println!("{}", vrl::stdlib::all().len()),
         _ => {
             eprintln!("usage: vh <core|...> [--opt value]...");
